@@ -426,6 +426,8 @@ func runServers(c *vh.Ctx) {
 	r := c.Rng
 	runHelloMutations(c, r)
 	runKeyShareLengths(c, r)
+	runKeyShareAfterHRR(c, r)
+	runPskConfigs(c, r)
 	runPostHandshake(c, r)
 	runInjections(c, r)
 	runRawStreams(c, r)
